@@ -158,6 +158,9 @@ func makeIntrinsics() map[string]intrinsic {
 		}
 		return r
 	}
+	// registers a service's request types as sdk.Msg by reflection over the service descriptor: the same types orbiter
+	// registers explicitly one line earlier
+	m["github.com/cosmos/cosmos-sdk/types/msgservice.RegisterMsgServiceDesc"] = func(st *State, fr *frame, a []value, cc *ssa.CallCommon) value { return nil }
 	m[V+"Aborts"] = func(st *State, fr *frame, a []value, cc *ssa.CallCommon) value {
 		cl := a[0].(*closure)
 		aborted := false
@@ -1420,6 +1423,68 @@ func makeIntrinsics() map[string]intrinsic {
 			out[k] = BVConstI(int64(data[k]), 8)
 		}
 		return tuple{out, iface{}}
+	}
+	// the bech32 package itself (used directly by code that does not go through the sdk's address type): exact on
+	// concrete strings, whatever their prefix; symbolic strings as in AccAddressFromBech32
+	B32 := "github.com/cosmos/cosmos-sdk/types/bech32."
+	bytesOf := func(v value) ([]byte, bool) {
+		switch x := v.(type) {
+		case []value:
+			out := make([]byte, len(x))
+			for i, e := range x {
+				c, ok := asConcreteInt(e)
+				if !ok {
+					return nil, false
+				}
+				out[i] = byte(c)
+			}
+			return out, true
+		case *Str:
+			if cs, ok := x.Concrete(); ok && x.Blob == nil {
+				return []byte(cs), true
+			}
+		}
+		return nil, false
+	}
+	constBytes := func(b []byte) []value {
+		out := make([]value, len(b))
+		for k := range out {
+			out[k] = BVConstI(int64(b[k]), 8)
+		}
+		return out
+	}
+	m[B32+"ConvertAndEncode"] = func(st *State, fr *frame, a []value, cc *ssa.CallCommon) value {
+		hrp, ok1 := a[0].(*Str).Concrete()
+		data, ok2 := bytesOf(a[1])
+		if !ok1 || !ok2 {
+			panic(pathEnd{kind: "unsupported", msg: "bech32 encoding of symbolic data"})
+		}
+		return tuple{StrConst(bech32Encode(hrp, data)), iface{}}
+	}
+	m[B32+"DecodeAndConvert"] = func(st *State, fr *frame, a []value, cc *ssa.CallCommon) value {
+		in := a[0].(*Str)
+		if in.Blob != nil {
+			panic(pathEnd{kind: "unsupported", msg: "bech32 decoding of an abstract string"})
+		}
+		s, ok := in.Concrete()
+		if !ok {
+			h := sha256.Sum256([]byte("orbiter"))
+			cands := append([][]byte{h[:20]}, st.known...)
+			for _, c := range cands {
+				lower := bech32Encode(bechPrefix, c)
+				for _, cand := range []string{lower, strings.ToUpper(lower)} {
+					if st.decide(StrEq(in, StrConst(cand))) {
+						return tuple{StrConst(bechPrefix), constBytes(c), iface{}}
+					}
+				}
+			}
+			return tuple{StrConst(""), []value(nil), newErr(st, "bech32")}
+		}
+		hrp, data, err := bech32Decode(s)
+		if err != nil {
+			return tuple{StrConst(""), []value(nil), newErr(st, "bech32")}
+		}
+		return tuple{StrConst(hrp), constBytes(data), iface{}}
 	}
 	m["github.com/cosmos/cosmos-sdk/codec/types.NewAnyWithValue"] = func(st *State, fr *frame, a []value, cc *ssa.CallCommon) value {
 		rt := st.funcOf(cc).Signature.Results().At(0).Type().(*types.Pointer).Elem()
